@@ -63,7 +63,19 @@ def main():
         print(wt)
     elif cmd == 'patch':
         wt = new(sys.argv[2])
-        sh('git', '-C', wt, 'apply', os.path.abspath(sys.argv[3]))
+        pf = os.path.abspath(sys.argv[3])
+        r = subprocess.run(['git', '-C', wt, 'apply', pf])
+        if r.returncode != 0:
+            # the patch was written against an earlier commit of /repo (a
+            # later fix: commit touched the same lines): use its base commit
+            import json
+            meta = os.path.join(os.path.dirname(pf), 'meta.json')
+            base = 'f840361'
+            if os.path.exists(meta):
+                base = json.load(open(meta)).get('base_commit', base)
+            sh('git', '-C', wt, 'checkout', '-q', '--detach', base)
+            sh('git', '-C', wt, 'apply', pf)
+            print(f'(applied on base commit {base})', file=sys.stderr)
         print(wt)
     elif cmd == 'rm':
         rm(sys.argv[2])
